@@ -181,3 +181,33 @@ def _same_root(fn, a, b):
     if ra[0] == rb[0] == "local":
         return ra[1] == rb[1]
     return ra == rb
+
+
+CLASS_LEVEL_DISCR = ("get_invoke_cache", "get_property_cache", "get_field", "get_field_index", "get_method", "get_super_method", "super_class")
+KIND_TESTS = ("is_obj", "is_kind", "is_obj_kind", "is_instance")
+
+
+def fill_depends_on_key_only(rec, F):
+    """what the cache remembers must be a function of what the cache is keyed by"""
+    R = rec.rule("F4.cache-det", "an inline cache entry is keyed by the receiver's class and read back for every later receiver of that class: between the miss and the fill a handler branches only on facts the class determines (cache probe, kind tests, whether the class declares the field / has the method) - never on the contents of this particular instance, or one instance's state decides how all later instances are dispatched")
+    n = 0
+    for fn in F.find(r"<impl laythe_vm::vm::Vm>::op_\w+$"):
+        fills = [bi for bi, t in fn.calls() if lastseg(t["f"]) in ("set_invoke_cache", "set_property_cache")]
+        probes = [bi for bi, t in fn.calls() if lastseg(t["f"]) in ("get_invoke_cache", "get_property_cache")]
+        if not fills or not probes:
+            continue
+        for fb in fills:
+            for pb in probes:
+                region = [b for b in fn.reachable if sem.reaches(fn, pb, b) and sem.reaches(fn, b, fb)]
+                for b in sorted(region):
+                    t = fn.blocks[b]["t"]
+                    if t["k"] != "switch":
+                        continue
+                    d = sem.desc_operand(fn, t["on"])
+                    n += 1
+                    ok = (d[0] == "discr" and d[1][0] == "call" and d[1][1] in CLASS_LEVEL_DISCR) or (d[0] == "call" and d[1] in KIND_TESTS)
+                    rec.inst(R, "%s: branch on %s" % (fn.name, (d[1][1] if d[0] == "discr" and d[1][0] == "call" else d[1]) if d[0] in ("discr", "call") else d[0]), ok=ok, loc=loc_of(t["sp"]))
+                    if not ok:
+                        what = sem.desc_call_name(d[1]) if d[0] == "discr" else sem.desc_call_name(d)
+                        rec.finding(R, "F4.cache-det/%s/%s" % (fn.name, what or d[0]), "%s decides between the cache miss and the cache fill on `%s`, which depends on this receiver's own state rather than on its class: what gets cached for the class depends on which instance came first (e.g. a nil field lets the method be cached, after which an instance whose field holds a closure is dispatched to the method too)" % (fn.name, what or str(d)[:60]), loc=loc_of(t["sp"]), fn=fn.path)
+    rec.floor(R, "branches between cache miss and fill", n, 8)
